@@ -46,6 +46,7 @@ func runC01(w *World, r *Report) {
 	ruleScClimb(w, r)
 	ruleFastLayout(w, r)
 	ruleKwType(w, r)
+	ruleBoolArity(w, r)
 	if fn := w.Fn("(*Expr).Eval"); fn != nil {
 		if l, _ := recoverEvalLoop(w, fn); l != nil {
 			ruleScJump(w, r, l)
@@ -838,7 +839,7 @@ func isKindExpr(w *World, e ast.Expr, k nodeKinds) bool {
 	return false
 }
 
-var c01Witnesses = append(append(stepWitnessesEval, tableWitnesses...), []Witness{
+var c01Witnesses = append(append(append(stepWitnessesEval, tableWitnesses...), boolArityWitnesses...), []Witness{
 	{Name: "fetcher-error-wrapped", Rule: "R-ERRID", Edits: []Edit{
 		{File: "engine.go", Old: "		case variable:\n			res, err = ctx.Get(curt.varKey, curt.value.(string))\n			if err != nil {\n				return\n			}\n		case constant:\n			res = curt.value\n		case operator:\n			cCnt := int16(curt.childCnt)\n			osTop = osTop - cCnt\n			if cCnt == 2 {\n				param2[0], param2[1] = os[osTop+1], os[osTop+2]\n				params = param2[:]", New: "		case variable:\n			res, err = ctx.Get(curt.varKey, curt.value.(string))\n			if err != nil {\n				return nil, fmt.Errorf(\"variable %v: %v\", curt.value, err)\n			}\n		case constant:\n			res = curt.value\n		case operator:\n			cCnt := int16(curt.childCnt)\n			osTop = osTop - cCnt\n			if cCnt == 2 {\n				param2[0], param2[1] = os[osTop+1], os[osTop+2]\n				params = param2[:]"},
 		{File: "engine.go", Old: "import (\n	\"context\"\n	\"errors\"\n)", New: "import (\n	\"context\"\n	\"errors\"\n	\"fmt\"\n)"}}},
